@@ -132,10 +132,23 @@ class BitEval:
                 if q is None or v[1] >= (1 << lim):
                     raise Undecided("%s of a value whose highest bit is not fixed (or zero)" % s[1][1])
                 env[s[1][2][0][2][1]] = (q, q)
+            elif k == "expr" and s[1][0] == "bin" and s[1][1].endswith("=") and s[1][1] not in ("==", "!=", "<=", ">=") and s[1][2][0] == "var":
+                env[s[1][2][1]] = self.ev(("bin", s[1][1][:-1], s[1][2], s[1][3]), env)      # `x >>= k` written as an expression (for-loop step)
             elif k == "if":
                 subs = [x for x in s if isinstance(x, list)]
                 c = self.truth(self.ev(s[1], env))
                 self.run(subs[0] if c else (subs[1] if len(subs) > 1 else []), env)
+            elif k == "loop":
+                init = s[5] if len(s) > 5 and isinstance(s[5], list) else []
+                inc = s[6] if len(s) > 6 and isinstance(s[6], list) else []
+                self.run(init, env)
+                n_it = 0
+                while self.truth(self.ev(s[2], env)):
+                    n_it += 1
+                    if n_it > 130:
+                        raise Undecided("loop does not terminate within 130 iterations")
+                    self.run(s[3], env)
+                    self.run(inc, env)
             elif k == "return":
                 raise Ret(self.ev(s[1], env))
             else:
